@@ -175,16 +175,12 @@ func generateRegexMatch(w io.Writer, lexerName, name, pattern string) error {
 	flattened := flatten(re)
 
 	// Fast-path a single literal.
-	if len(flattened) == 1 && re.Op == syntax.OpLiteral {
-		n := utf8.RuneCountInString(string(re.Rune))
-		if re.Flags&syntax.FoldCase != 0 {
-			fmt.Fprintf(w, "if p+%d <= len(s) && strings.EqualFold(s[p:p+%d], %q) {\n", n, n, string(re.Rune))
+	if len(flattened) == 1 && re.Op == syntax.OpLiteral && re.Flags&syntax.FoldCase == 0 {
+		n := len(string(re.Rune))
+		if n == 1 {
+			fmt.Fprintf(w, "if p < len(s) && s[p] == %q {\n", re.Rune[0])
 		} else {
-			if n == 1 {
-				fmt.Fprintf(w, "if p < len(s) && s[p] == %q {\n", re.Rune[0])
-			} else {
-				fmt.Fprintf(w, "if p+%d <= len(s) && s[p:p+%d] == %q {\n", n, n, string(re.Rune))
-			}
+			fmt.Fprintf(w, "if p+%d <= len(s) && s[p:p+%d] == %q {\n", n, n, string(re.Rune))
 		}
 		fmt.Fprintf(w, "groups[0] = p\n")
 		fmt.Fprintf(w, "groups[1] = p + %d\n", n)
@@ -210,12 +206,12 @@ func generateRegexMatch(w io.Writer, lexerName, name, pattern string) error {
 			fmt.Fprintf(w, "return p\n")
 
 		case syntax.OpLiteral: // matches Runes sequence
-			n := utf8.RuneCountInString(string(re.Rune))
+			n := len(string(re.Rune))
 			if re.Flags&syntax.FoldCase != 0 {
 				if n == 1 && !unicode.IsLetter(re.Rune[0]) {
 					fmt.Fprintf(w, "if p < len(s) && s[p] == %q { return p+1 }\n", re.Rune[0])
 				} else {
-					fmt.Fprintf(w, "if p+%d <= len(s) && strings.EqualFold(s[p:p+%d], %q) { return p+%d }\n", n, n, string(re.Rune), n)
+					generateFoldLiteral(w, re.Rune)
 				}
 			} else {
 				if n == 1 {
@@ -380,6 +376,20 @@ func generateRegexMatch(w io.Writer, lexerName, name, pattern string) error {
 	fmt.Fprintf(w, "return\n")
 	fmt.Fprintf(w, "}\n")
 	return nil
+}
+
+// Match a case-folded literal rune by rune: folded variants may differ in encoded length.
+func generateFoldLiteral(w io.Writer, runes []rune) {
+	fmt.Fprintf(w, "for _, want := range %q {\n", string(runes))
+	fmt.Fprintf(w, "  if p >= len(s) { return -1 }\n")
+	fmt.Fprintf(w, "  var (rn rune; n int)\n")
+	decodeRune(w, "p", "rn", "n")
+	fmt.Fprintf(w, "  ok := rn == want\n")
+	fmt.Fprintf(w, "  for f := unicode.SimpleFold(want); !ok && f != want; f = unicode.SimpleFold(f) { ok = rn == f }\n")
+	fmt.Fprintf(w, "  if !ok { return -1 }\n")
+	fmt.Fprintf(w, "  p += n\n")
+	fmt.Fprintf(w, "}\n")
+	fmt.Fprintf(w, "return p\n")
 }
 
 // This exists because of https://github.com/golang/go/issues/31666
